@@ -24,27 +24,7 @@
 (* the one written here.  Bound to the code by the `proto` events, which    *)
 (* carry the real Marshal() output for streams up to 2 KiB.                 *)
 (***************************************************************************)
-EXTENDS SlimEncode
-
-\* ---- varints -------------------------------------------------------------------
-RECURSIVE VarintN(_)
-VarintN(n) == IF n < 128 THEN <<n>> ELSE <<128 + (n % 128)>> \o VarintN(n \div 128)
-
-\* S: the one-positions (0..63) of an unsigned 64-bit number
-VarintBits(S) ==
-  LET last == IF S = {} THEN 0 ELSE Max(S) \div 7
-      grp(g) == FoldSet(LAMBDA b, acc : acc + Pow2(b - 7 * g), 0, {b \in S : b \div 7 = g})
-  IN [x \in 1..(last + 1) |-> grp(x - 1) + (IF x - 1 < last THEN 128 ELSE 0)]
-
-LE64(n) == <<n % 256, (n \div 256) % 256, (n \div 65536) % 256, (n \div 16777216) % 256, 0, 0, 0, 0>>
-
-\* ---- proto3 fields -------------------------------------------------------------
-Tag(f, wt)   == VarintN(8 * f + wt)
-LD(f, bs)    == Tag(f, 2) \o VarintN(Len(bs)) \o bs            \* length-delimited, always written
-OptInt(f, n) == IF n = 0 THEN <<>> ELSE Tag(f, 0) \o VarintN(n)
-OptBytes(f, bs) == IF Len(bs) = 0 THEN <<>> ELSE LD(f, bs)
-PackedN(f, s) == IF Len(s) = 0 THEN <<>> ELSE LD(f, FlattenSeq([i \in 1..Len(s) |-> VarintN(s[i])]))
-PackedW(f, ws) == IF Len(ws) = 0 THEN <<>> ELSE LD(f, FlattenSeq([i \in 1..Len(ws) |-> VarintBits(ws[i])]))
+EXTENDS SlimEncode, ProtoWire
 
 \* ---- messages -------------------------------------------------------------------
 WordsOf(bm) == [w \in 1..bm.nwords |-> {b - 64 * (w - 1) : b \in {x \in bm.bits : x \div 64 = w - 1}}]
@@ -82,42 +62,6 @@ StreamOfBody(ver, body) == HeaderBytes(ver, Len(body)) \o body
 Stream(m) == StreamOfBody(CurrentVersionChars, SlimMsg(m))
 
 \* ---- the reader's side: parsing a body back into the stored form -------------------
-\* a varint at position p (1-based): <<one-positions of the value, next position>>;
-\* next position 0 = the bytes end inside the varint
-RECURSIVE RdVar(_, _, _, _)
-RdVar(bs, p, shift, acc) ==
-  IF p > Len(bs) THEN <<{}, 0>>
-  ELSE LET b    == bs[p]
-           acc2 == acc \cup {shift + k : k \in {j \in 0..6 : (b \div Pow2(j)) % 2 = 1}}
-       IN IF b >= 128 THEN RdVar(bs, p + 1, shift + 7, acc2) ELSE <<acc2, p + 1>>
-NumOf(S) == FoldSet(LAMBDA b, a : a + Pow2(b), 0, S)          \* for values below 2^31
-
-BadField == [f |-> -1, wt |-> -1, n |-> 0, bytes |-> <<>>]
-\* the fields of a message, in stream order: [f, wt, n (varint value), bytes (payload)]
-RECURSIVE Fields(_, _)
-Fields(bs, p) ==
-  IF p > Len(bs) THEN <<>>
-  ELSE LET t == RdVar(bs, p, 0, {}) IN
-       IF t[2] = 0 THEN <<BadField>>
-       ELSE LET tag == NumOf(t[1])  f == tag \div 8  wt == tag % 8
-                v   == RdVar(bs, t[2], 0, {}) IN
-            IF v[2] = 0 \/ wt \notin {0, 2} THEN <<BadField>>
-            ELSE IF wt = 0 THEN <<[f |-> f, wt |-> 0, n |-> NumOf(v[1]), bytes |-> <<>>]>> \o Fields(bs, v[2])
-            ELSE LET n == NumOf(v[1]) IN
-                 IF v[2] + n - 1 > Len(bs) THEN <<BadField>>
-                 ELSE <<[f |-> f, wt |-> 2, n |-> n, bytes |-> SubSeq(bs, v[2], v[2] + n - 1)]>> \o Fields(bs, v[2] + n)
-
-WellFormed(fs) == \A i \in 1..Len(fs) : fs[i].f # -1
-HasF(fs, f)  == \E i \in 1..Len(fs) : fs[i].f = f
-FieldOf(fs, f) == fs[CHOOSE i \in 1..Len(fs) : fs[i].f = f]
-IntF(fs, f)  == IF HasF(fs, f) THEN FieldOf(fs, f).n ELSE 0
-BytesF(fs, f) == IF HasF(fs, f) THEN FieldOf(fs, f).bytes ELSE <<>>
-
-\* packed varints, each as the set of its one-positions
-RECURSIVE Unpack(_, _)
-Unpack(bs, p) == IF p > Len(bs) THEN <<>> ELSE LET v == RdVar(bs, p, 0, {}) IN <<v[1]>> \o Unpack(bs, v[2])
-UnpackN(bs) == LET u == Unpack(bs, 1) IN [i \in 1..Len(u) |-> NumOf(u[i])]
-
 ParseBitmap(bs) ==
   LET fs == Fields(bs, 1)
       ws == Unpack(BytesF(fs, 20), 1) IN
